@@ -186,17 +186,21 @@ func (pq *KeyGroupPriorityQueue) loadFromDB() {
 	binary.BigEndian.PutUint16(prefix[0:2], uint16(pq.keyGroup))
 	prefix[2] = 0x01 // Schema byte
 
+	// Only when the scan ran to its end does the cache hold every timer of the
+	// key group; stopping early because the cache is full leaves the rest in the DB.
+	loadedAll := true
 	var err error
 	for entry := range pq.db.ScanPrefix(prefix, &err) {
 		pq.cache.Push(entry.Key())
 		if pq.cache.IsFull() {
+			loadedAll = false
 			break
 		}
 	}
 	if err != nil {
 		panic(err)
 	}
-	pq.allDataInCache = true
+	pq.allDataInCache = loadedAll
 }
 
 var _ ds.QueuePartition[[]byte] = &KeyGroupPriorityQueue{}
